@@ -691,6 +691,10 @@ class Discharger:
                 if b[0] == "int" and b[1] <= 16:
                     ty = (t.get("ops") or [{}])[0]
                     aty = self.operand_ty(mir, t["ops"][0])
+                    if b[1] == 1 and s.body.kind == "Closure" and s.body.parent_fn:
+                        parent = next((b_ for b_ in self.unit.bodies if b_.path == s.body.parent_fn or b_.npath == facts.strip_generics(s.body.parent_fn)), None)
+                        if parent is not None and self.per_item_counters(parent) and s.body.path in self._pic.get(("closures", parent.npath), ()):
+                            return "I9 counter incremented once per item of an iterator over a slice (at most len(slice) <= isize::MAX increments from a small constant)"
                     if aty == "usize":
                         if is_len_of(a) is not None:
                             return "I7 slice length + small constant (lengths are <= isize::MAX)"
@@ -965,8 +969,12 @@ class Discharger:
             inner = sym.norm(A.is_len_of(len_atom))
             at = len_atom[4] if len_atom[0] == "call" else None
             roots = [x for x in sym.walk(inner) if x[0] == "var"]
-            if inner[0] == "call" and inner[1].split("::")[-1] in ("as_slice", "as_bytes", "deref", "as_ref") and not any(x[0] == "var" for x in sym.walk(inner)):
-                # the same (single-assignment) call result: an immutable slice value
+            view = inner
+            while view[0] in ("field", "downcast"):
+                view = view[1]          # a component of a tuple / Option of shared sub-slices (`split_at(..).1`, `split_first()?.1`)
+            if view[0] == "call" and view[1].startswith(("core::", "alloc::", "arrayvec::")) and view[1].split("::")[-1] in ("as_slice", "as_bytes", "deref", "as_ref", "split_at", "split_first", "split_last", "strip_prefix", "strip_suffix", "get") \
+                    and not any(x[0] == "var" for x in sym.walk(inner)):
+                # the same (single-assignment) call result: an immutable slice value (or shared sub-slices of one)
                 return True
             if any(x[0] == "call" for x in sym.walk(inner)):
                 return False
@@ -1066,6 +1074,11 @@ class Discharger:
                             if not Fd.proves_ge(ln, arith.untry(d)):
                                 return False
                         return True
+                    pic = self.per_item_counters(s.body)
+                    for bound in ((lo,) if kind == "RangeFrom" else (hi,) if kind == "RangeTo" else ()):
+                        b0 = arith.untry(bound)
+                        if b0[0] == "var" and b0[1] in pic and sym.norm(self.expand(S, pic[b0[1]])) == sym.norm(self.expand(S, base)):
+                            return "A: the range bound counts items of an iterator over this very slice (I9): at most len(slice)"
                     if kind == "RangeTo" and within(hi, True):
                         return "A: every value assigned to the range end is at most len(slice) (running count of consumed bytes of this slice)"
                     if kind == "RangeFrom" and within(lo, True):
@@ -1142,7 +1155,147 @@ class Discharger:
                             out.add(bb)
                     if not any(int(v) == 1 for v, _ in t["targets"]):
                         out.add(t["otherwise"])
+                # `cur.next()?` / `cur.next().ok_or(e)?`: the Continue edge of the `?` is the Some edge of next()
+                if e[0] == "discr" and e[1][0] == "call" and e[1][1].endswith("Try::branch") and e[1][3]:
+                    a = sym.norm(e[1][3][0])
+                    while a[0] == "call" and a[1].split("::")[-1] in ("ok_or", "ok_or_else") and a[1].startswith("core::") and a[3]:
+                        a = sym.norm(a[3][0])
+                    if a[0] == "call" and (a[2].endswith("Iterator>::next") or a[1].endswith("Iterator::next")) and a[3] and sym.norm(a[3][0]) == cur:
+                        for v, bb in t["targets"]:
+                            if int(v) == 0:
+                                out.add(bb)
         return out
+
+    # ---- I9: a counter incremented once per item of an iterator over a slice ------------------------------------------------
+    _NON_EXPANDING = ("map", "map_while", "take_while", "skip_while", "filter", "filter_map", "skip", "take", "rev", "enumerate", "copied", "cloned", "peekable", "by_ref", "inspect", "fuse", "step_by", "scan", "zip")
+    _PER_ITEM_CONSUMERS = ("try_fold", "fold", "for_each", "try_for_each", "all", "any", "position", "find", "find_map", "map", "inspect", "filter", "take_while", "map_while", "skip_while", "filter_map", "scan")
+
+    def per_item_counters(self, body):
+        """{local of `body`: slice expression} for every integer local that is initialised with a small constant and
+        otherwise only changed by `+= 1` inside one closure which is handed to an iterator adaptor / consumer whose
+        receiver is a chain of non-expanding adaptors over `X.iter()`: the closure runs at most once per element of X,
+        so the counter never exceeds its initial value + len(X)"""
+        key = ("pic", body.npath)
+        if not hasattr(self, "_pic"):
+            self._pic = {}
+        if key in self._pic:
+            return self._pic[key]
+        out = {}
+        mir = body.mir
+        S = self.S(mir)
+        closures = {c.path: c for c in self.unit.closures_of(body)} if hasattr(self.unit, "closures_of") else {}
+        for bi in mir.live_blocks():
+            for st in mir.blocks[bi]["stmts"]:
+                if not (st["k"] == "assign" and st["rv"]["k"] == "aggr" and st["rv"].get("agg") == "closure"):
+                    continue
+                cdef = st["rv"]["def"]
+                cbody = next((c for c in self.unit.bodies if c.kind == "Closure" and (facts.strip_generics(c.path) == facts.strip_generics(cdef) or c.path == cdef or c.path.endswith(cdef.split("::", 1)[-1]))), None)
+                if cbody is None:
+                    continue
+                cl_local = st["place"]["l"] if not st["place"]["proj"] else None
+                if cl_local is None:
+                    continue
+                for k, f in enumerate(st["rv"]["fields"]):
+                    if f["k"] not in ("move", "copy") or f["place"]["proj"]:
+                        continue
+                    # the captured value: `&mut L`
+                    src = None
+                    for (b2, si2, st2) in mir.assigns().get(f["place"]["l"], []):
+                        if si2 != "term" and st2.get("k") == "assign" and st2["rv"]["k"] == "ref" and st2["rv"].get("mut") and not st2["rv"]["place"]["proj"]:
+                            src = st2["rv"]["place"]["l"]
+                    if src is None:
+                        continue
+                    ty = mir.locals[src]["ty"] if src < len(mir.locals) else ""
+                    if ty not in ("usize", "u32", "u64"):
+                        continue
+                    # the counter itself: constant initialisation only, one mutable borrow only
+                    inits = [st3 for (b3, si3, st3) in mir.assigns().get(src, []) if si3 != "term"]
+                    if not inits or not all(st3["rv"]["k"] == "use" and st3["rv"]["a"]["k"] == "const" and "int" in st3["rv"]["a"]["c"] and 0 <= int(st3["rv"]["a"]["c"]["int"]) <= 65536 for st3 in inits):
+                        continue
+                    if any(x == "term" for (_b, x, _s) in mir.assigns().get(src, [])):
+                        continue
+                    nborrow = sum(1 for b4 in mir.live_blocks() for st4 in mir.blocks[b4]["stmts"] if st4["k"] == "assign" and st4["rv"]["k"] in ("ref", "rawptr") and st4["rv"].get("mut") and st4["rv"]["place"]["l"] == src)
+                    if nborrow != 1:
+                        continue
+                    if not self._closure_only_increments(cbody, k):
+                        continue
+                    # where the closure goes: one iterator call, receiver rooted at a slice iterator
+                    uses = []
+                    for b5 in mir.live_blocks():
+                        t5 = mir.blocks[b5]["term"]
+                        if t5["k"] == "call" and any(a["k"] in ("move", "copy") and not a["place"]["proj"] and a["place"]["l"] == cl_local for a in t5["args"]):
+                            uses.append(t5)
+                    if len(uses) != 1:
+                        continue
+                    t5 = uses[0]
+                    cname = facts.strip_generics(t5["callee"].get("path", ""))
+                    if not (cname.startswith("core::iter::") and cname.split("::")[-1] in self._PER_ITEM_CONSUMERS) or not t5["args"]:
+                        continue
+                    base = self._slice_root(S, sym.norm(S.operand(t5["args"][0])))
+                    if base is not None:
+                        out[src] = base
+                        self._pic.setdefault(("closures", body.npath), set()).add(cbody.path)
+        self._pic[key] = out
+        return out
+
+    def _closure_only_increments(self, cbody, k):
+        """every write the closure makes through its k-th capture (a `&mut` integer) is `*p = *p + 1`"""
+        cm = cbody.mir
+        ptrs = set()
+        for bi in cm.live_blocks():
+            for st in cm.blocks[bi]["stmts"]:
+                if st["k"] == "assign" and st["rv"]["k"] == "use" and st["rv"]["a"]["k"] in ("copy", "move"):
+                    pl = st["rv"]["a"]["place"]
+                    if pl["l"] == 1 and [p_["k"] for p_ in pl["proj"]] == ["deref", "field"] and pl["proj"][1]["i"] == k and not st["place"]["proj"]:
+                        ptrs.add(st["place"]["l"])
+        if not ptrs:
+            return False
+        n_writes = 0
+        for bi in cm.live_blocks():
+            blk = cm.blocks[bi]
+            for st in blk["stmts"]:
+                if st["k"] != "assign":
+                    continue
+                pl = st["place"]
+                if pl["l"] in ptrs and [p_["k"] for p_ in pl["proj"]] == ["deref"]:
+                    # *p = move (tmp).0 with tmp = AddWithOverflow(*q, 1), q another copy of the same capture
+                    rv = st["rv"]
+                    ok = False
+                    if rv["k"] == "binop" and rv["op"] in ("Add", "AddUnchecked") and rv["b"]["k"] == "const" and int(rv["b"]["c"].get("int", 0)) == 1 and rv["a"]["k"] in ("copy", "move") \
+                            and rv["a"]["place"]["l"] in ptrs and [p_["k"] for p_ in rv["a"]["place"]["proj"]] == ["deref"]:
+                        ok = True          # builds without overflow checks: `*p = *p + 1` in one statement
+                    if rv["k"] == "use" and rv["a"]["k"] in ("move", "copy") and [p_["k"] for p_ in rv["a"]["place"]["proj"]] in (["field"], []):
+                        tl = rv["a"]["place"]["l"]
+                        for (b2, si2, st2) in cm.assigns().get(tl, []):
+                            r2 = st2.get("rv", {}) if si2 != "term" else {}
+                            if r2.get("k") == "binop" and r2["op"] in ("AddWithOverflow", "Add", "AddUnchecked") and r2["b"]["k"] == "const" and int(r2["b"]["c"].get("int", 0)) == 1 \
+                                    and r2["a"]["k"] in ("copy", "move") and r2["a"]["place"]["l"] in ptrs and [p_["k"] for p_ in r2["a"]["place"]["proj"]] == ["deref"]:
+                                ok = True
+                    if not ok:
+                        return False
+                    n_writes += 1
+            t = blk["term"]
+            if t["k"] == "call" and any(a["k"] in ("move", "copy") and a["place"]["l"] in ptrs and not a["place"]["proj"] for a in t["args"]):
+                return False          # the pointer escapes into a call
+        return n_writes >= 1
+
+    def _slice_root(self, S, e, depth=0):
+        """X if `e` denotes (a mutable borrow of) a chain of non-expanding iterator adaptors over `X.iter()`"""
+        e = self.expand(S, e)
+        while depth < 12:
+            depth += 1
+            if e[0] in ("ref", "addr") and len(e) > 1 and isinstance(e[-1], tuple):
+                e = self.expand(S, e[-1])
+                continue
+            if e[0] == "call" and e[3]:
+                nm = e[1].split("::")[-1]
+                if nm == "iter" and ("core::slice" in e[1] or "core::slice" in str(e[2])):
+                    return sym.norm(e[3][0])
+                if nm == "into_iter" or (e[1].startswith("core::iter::") and nm in self._NON_EXPANDING):
+                    e = self.expand(S, sym.norm(e[3][0]))
+                    continue
+            return None
+        return None
 
     def bounded_u8_counter(self, mir, S, s):
         t = s.extra["term"]
